@@ -18,12 +18,13 @@ LEVEL = 'exploration'
 RULE = ('inputs: corpus and Annex A derivations biased towards nesting (blocks, functions, object literals, switch '
         'with empty / fall-through / default-in-the-middle cases, try arms, empty constructs inside non-empty ones), '
         'parsed with and without comment capture; configurations: indent strings "", one to four spaces, TAB, " TAB"; '
+        'every second program is printed by a printer object that has an abandoned and a completed walk behind it; '
         'a case = (text, indent, comment flag); non-trivial = the output has at least one line at depth >= 1; '
         'distinct by (text, indent, flag).')
 ASSUMPTIONS = ['structural depth of the output is computed from the refjs tree of the output itself; continuation lines '
                'of multi-line string / comment tokens and lines that start with a comment are exempt']
 BUDGET_S = {'quick': 60, 'thorough': 700}
-REQUIRED_HITS = ['pretty_print', 'lines_checked', 'Indentator.indent', 'Indentator.dedent', 'level_zero_at_end']
+REQUIRED_HITS = ['pretty_print', 'used_printer', 'lines_checked', 'Indentator.indent', 'Indentator.dedent', 'level_zero_at_end']
 FLOOR = {'quick': 1500, 'thorough': 30000}
 
 INDENTS = ['  ', '\t', '', ' ', '   ', '    ', ' \t']
@@ -180,16 +181,42 @@ class Levels(object):
         return out
 
 
-def check(ctx, levels, text, indents, with_comments, origin):
+_warm = []
+
+
+def used_printer(indent):
+    """a pretty printer object with a history: one walk abandoned inside two open blocks, one completed"""
+    from calmjs.parse.unparsers.es5 import pretty_printer
+    from calmjs.parse.parsers.es5 import parse
+    if not _warm:
+        _warm.append(parse('function w(a) { if (a) { b(); c(); } switch (d) { case 1: e(); } }'))
+    printer = pretty_printer(indent)
+    gen = iter(printer(_warm[0]))
+    for _ in range(22):
+        next(gen)
+    gen.close()
+    for _ in printer(_warm[0]):
+        pass
+    return printer
+
+
+def check(ctx, levels, text, indents, with_comments, origin, history=False):
     from calmjs.parse.unparsers.es5 import pretty_print
     p = printing.prepare(ctx, text, with_comments)
     if p is None:
         ctx.case((text, 'skipped'), False)
         return
-    for indent in indents:
+    for k, indent in enumerate(indents):
+        used = history and k == 0
+        printer = used_printer(indent) if used else None
         levels.begin()
         try:
-            out = pretty_print(p.tree, indent_str=indent)
+            if used:
+                # the statement is about every pretty-printed output, also that of a printer object used before
+                out = ''.join(chunk.text for chunk in printer(p.tree))
+                ctx.hit('used_printer')
+            else:
+                out = pretty_print(p.tree, indent_str=indent)
         except RecursionError:
             ctx.count('skipped:resource_limit')
             continue
@@ -215,7 +242,7 @@ def check(ctx, levels, text, indents, with_comments, origin):
             if mech in seen:
                 continue
             seen.add(mech)
-            ctx.violation(mech, {'text': text, 'indent': indent, 'with_comments': with_comments},
+            ctx.violation(mech, {'text': text, 'indent': indent, 'with_comments': with_comments, 'history': used},
                           '%s\nindent %r, comment capture %s\ninput: %r\noutput: %r' % (
                               detail, indent, with_comments, text[:200], out[:300]))
         if viol:
@@ -234,7 +261,7 @@ def run(ctx):
                 ind = INDENTS
             else:
                 ind = [INDENTS[i % len(INDENTS)], INDENTS[(i + 3) % len(INDENTS)], '']
-            check(ctx, levels, text, ind, False, meta['origin'])
+            check(ctx, levels, text, ind, False, meta['origin'], history=bool(i & 1))
             if meta['layout'] == 'random_comments' or meta['origin'] == 'corpus':
                 check(ctx, levels, text, ind[:2], True, meta['origin'])
             if ctx.out_of_time():
@@ -247,7 +274,8 @@ def run(ctx):
 def replay(ctx, witness):
     levels = Levels(ctx).install()
     try:
-        check(ctx, levels, witness['text'], [witness.get('indent', '  ')], bool(witness.get('with_comments')), 'replay')
+        check(ctx, levels, witness['text'], [witness.get('indent', '  ')], bool(witness.get('with_comments')), 'replay',
+              history=bool(witness.get('history')))
     finally:
         levels.remove()
 
